@@ -100,6 +100,7 @@ func (p *Program) Explore(key string, opts *VerifyOpts) (*Exec, *FuncReport, err
 		if err := x.applyDirectives(st, fr, ct, args); err != nil {
 			return nil, nil, err
 		}
+		x.loopCompleteObligations(st, fr, ct)
 	}
 	if ct != nil {
 		env := x.specEnvFor(st, fn, args, nil, nil)
@@ -176,7 +177,7 @@ func (x *Exec) obligeAt(st *State, fn *ssa.Function, kind, name string, goal Ter
 		// contract-level obligations that the term rewriter already reduced to true are recorded as
 		// discharged by it (so that evidence counts them); implicit safety checks that fold are not
 		switch kind {
-		case "ensures", "requires", "guarantee", "invariant-entry", "invariant-preserved", "site", "stmt-binding", "tx-typestate", "sql":
+		case "ensures", "requires", "guarantee", "invariant-entry", "invariant-preserved", "site", "stmt-binding", "tx-typestate", "sql", "loop-exit":
 		default:
 			return
 		}
